@@ -445,6 +445,11 @@ func k2Is(p *Prog, fn *ssa.Function) string {
 
 func k2Build(p *Prog, fn *ssa.Function, regKey string) string {
 	loops := findRangeLoops(fn)
+	if len(loops) == 0 {
+		if why, handled := k2BuildDelegated(p, fn, regKey); handled {
+			return why
+		}
+	}
 	if len(loops) != 1 {
 		return fmt.Sprintf("expected one range loop, found %d", len(loops))
 	}
@@ -654,6 +659,157 @@ func k1Delegated(p *Prog, fn *ssa.Function, m string, chainKey string) (string, 
 				return "the members' Close errors do not reach flattenErrs", true
 			}
 		}
+	}
+	return "", true
+}
+
+// k2BuildDelegated: Build has no loop of its own but calls exactly one helper method on its receiver that asks the
+// factories. The helper is checked like the loop half of k2Build (one exhaustive range over factories, one
+// unconditional NewInterceptor per factory with Build's id, the first error ends it with that error, every built
+// interceptor is appended and the appended slice is returned); Build is checked for the link: it returns the helper's
+// error when that is non-nil, otherwise NewChain(helper's result), and NoOp only for the empty registry.
+func k2BuildDelegated(p *Prog, fn *ssa.Function, regKey string) (string, bool) {
+	var via *ssa.Call
+	var h *ssa.Function
+	n := 0
+	instrsOf(fn, func(in ssa.Instruction) {
+		c, ok := in.(*ssa.Call)
+		if !ok {
+			return
+		}
+		sc := c.Call.StaticCallee()
+		if sc == nil || !p.InUniverse(sc) || sc.Signature.Recv() == nil || len(c.Call.Args) == 0 || p.origin(c.Call.Args[0]) != ssa.Value(fn.Params[0]) {
+			return
+		}
+		has := false
+		instrsOf(sc, func(in2 ssa.Instruction) {
+			if c2, ok := in2.(*ssa.Call); ok && c2.Call.IsInvoke() && c2.Call.Method.Name() == "NewInterceptor" {
+				has = true
+			}
+		})
+		if has {
+			n++
+			via, h = c, sc
+		}
+	})
+	if n != 1 {
+		return "", false
+	}
+	loops := findRangeLoops(h)
+	if len(loops) != 1 {
+		return fmt.Sprintf("expected one range loop in %s, found %d", funcKey(h), len(loops)), true
+	}
+	l := loops[0]
+	if !isFieldLoad(l.Slice, regKey, "factories") {
+		return "the loop does not range over the whole Registry.factories slice", true
+	}
+	var call *ssa.Call
+	cnt := 0
+	instrsOf(h, func(in ssa.Instruction) {
+		if c, ok := in.(*ssa.Call); ok && c.Call.IsInvoke() && c.Call.Method.Name() == "NewInterceptor" {
+			call = c
+			cnt++
+		}
+	})
+	if cnt != 1 || !l.Blocks[call.Block()] || !l.isElem(p, call.Call.Value) || call.Block().Idom() != l.Header {
+		return "not exactly one unconditional NewInterceptor call per factory", true
+	}
+	idPar, ok := p.origin(call.Call.Args[0]).(*ssa.Parameter)
+	if !ok || idPar.Parent() != h {
+		return "factories receive a different id", true
+	}
+	for i, q := range h.Params {
+		if q == idPar && (i >= len(via.Call.Args) || p.origin(via.Call.Args[i]) != ssa.Value(fn.Params[1])) {
+			return "factories receive a different id", true
+		}
+	}
+	fe := errExtract(call)
+	for _, e := range l.Exits {
+		ret, ok := e.To.Instrs[len(e.To.Instrs)-1].(*ssa.Return)
+		if !ok || fe == nil || len(ret.Results) < 2 || p.origin(ret.Results[len(ret.Results)-1]) != ssa.Value(fe) || p.nilnessAt(fe, e.To) != 1 {
+			return "the loop is left early other than by returning the factory's error", true
+		}
+	}
+	if fe == nil || len(l.Exits) == 0 {
+		return "a factory's construction error does not end the helper with that error", true
+	}
+	i0 := extractN(call, 0)
+	var app *ssa.Call
+	instrsOf(h, func(in ssa.Instruction) {
+		if c, ok := in.(*ssa.Call); ok && builtinName(&c.Call) == "append" && l.Blocks[c.Block()] {
+			if i0 != nil && p.backwardReaches(c.Call.Args[1], func(v ssa.Value) bool { return v == ssa.Value(i0) }) {
+				if len(c.Block().Succs) == 1 && c.Block().Succs[0] == l.Header {
+					app = c
+				}
+			}
+		}
+	})
+	if app == nil {
+		return "the built interceptor is not appended on the success path", true
+	}
+	// the return after the loop hands back the accumulated slice and a nil error
+	after := l.Header.Succs[1]
+	okRet := false
+	for _, b := range h.Blocks {
+		ret, ok := b.Instrs[len(b.Instrs)-1].(*ssa.Return)
+		if !ok || !(b == after || after.Dominates(b)) {
+			continue
+		}
+		if len(ret.Results) == 2 && isNilConst(p.origin(ret.Results[1])) && p.backwardReaches(ret.Results[0], func(v ssa.Value) bool { return v == ssa.Value(app) }) {
+			okRet = true
+		} else {
+			return "the helper does not return the slice of all built interceptors with a nil error after the loop", true
+		}
+	}
+	if !okRet {
+		return "the helper does not return the slice of all built interceptors after the loop", true
+	}
+	// ---- the link in Build
+	he := errExtract(via)
+	h0 := extractN(via, 0)
+	if he == nil || h0 == nil {
+		return "Build does not take both results of the helper", true
+	}
+	okChain, okNoOp, okErr := false, false, false
+	for _, b := range fn.Blocks {
+		ret, ok := b.Instrs[len(b.Instrs)-1].(*ssa.Return)
+		if !ok {
+			continue
+		}
+		if p.origin(ret.Results[1]) == ssa.Value(he) && p.nilnessAt(he, b) == 1 {
+			okErr = true
+			continue
+		}
+		v := ret.Results[0]
+		if mi, ok := v.(*ssa.MakeInterface); ok {
+			switch x := mi.X.(type) {
+			case *ssa.Call:
+				if sc := x.Call.StaticCallee(); sc != nil && strings.HasSuffix(funcKey(sc), ".NewChain") {
+					if p.origin(x.Call.Args[0]) == ssa.Value(h0) && p.nilnessAt(he, b) == -1 {
+						okChain = true
+					} else {
+						return "the chain is not built from the helper's result on the helper's success path", true
+					}
+				}
+			case *ssa.Alloc:
+				if strings.HasSuffix(typeKey(x.Type()), "NoOp") {
+					for _, f := range dominatingFacts(b) {
+						if bo, ok := f.cond.(*ssa.BinOp); ok && bo.Op == token.EQL && isConstInt(bo.Y, 0) && f.truth {
+							okNoOp = true
+						}
+					}
+					if !okNoOp {
+						return "a NoOp is returned although the registry may hold factories", true
+					}
+				}
+			}
+		}
+	}
+	if !okErr {
+		return "a factory's construction error does not end Build with that error", true
+	}
+	if !okChain {
+		return "the chain is not built from all constructed interceptors", true
 	}
 	return "", true
 }
